@@ -255,9 +255,16 @@ def replay(data):
             nt = min(ts[0] + (k + 1) * dt, ts[-1]); grid.append((t, nt)); t = nt; k += 1
         if len(q) != len(grid) or any(abs(a - c) > 1e-9 or abs(b - d) > 1e-9 for (a, b), (c, d) in zip(q, grid)):
             bad.append(f'grid: queries {q[:6]} expected {grid[:6]}')
-        # fine reference: outputs at every grid time
-        gts = sorted(set([ts[0]] + [b for _, b in grid]))
-        ref, _ = solve(gts)
+        # independent reference: Euler-Maruyama by hand on the grid, with the increments of the same Brownian object
+        sde = SDE()
+        ref_bm = torchsde.BrownianInterval(lo, hi, size=(1, 1), dtype=torch.float64, entropy=11)
+        gts = [ts[0]]
+        ref = [y0]
+        for (a, b) in grid:
+            yk = ref[-1]
+            ta, tb = torch.tensor(a, dtype=torch.float64), torch.tensor(b, dtype=torch.float64)
+            ref.append(yk + sde.f(ta, yk) * (b - a) + sde.g(ta, yk) * ref_bm(a, b))
+            gts.append(b)
         for i, t in enumerate(ts):
             j = max(jj for jj, g in enumerate(gts) if g <= t + 1e-12)
             if abs(gts[j] - t) < 1e-12:
